@@ -315,6 +315,42 @@ def op_text(model, sg, op, kind):
     elif kind in ("LOGISTIC", "TANH"):
         one_scale(T[ins[0]], kind)
         one_scale(T[outs[0]], kind)
+    elif kind == "ARG_MAX":
+        axis_v = const_ints(model, T[ins[1]])
+        if axis_v is None:
+            raise NotSimulated("ARG_MAX:dynamic_axis")
+        rank = len(T[ins[0]]["shape"])
+        g = [[axis_v[0] + rank if axis_v[0] < 0 else axis_v[0]]]
+        ins = ins[:1]
+    elif kind == "TRANSPOSE":
+        perm = const_ints(model, T[ins[1]])
+        if perm is None:
+            raise NotSimulated("TRANSPOSE:dynamic_permutation")
+        if qparams(T[ins[0]]) != qparams(T[outs[0]]):
+            raise NotSimulated("TRANSPOSE:quantisation_differs")
+        g = [list(perm)]
+        ins = ins[:1]
+    elif kind == "EXP":
+        one_scale(T[ins[0]], kind)
+        one_scale(T[outs[0]], kind)
+        if T[ins[0]]["type"] not in ("int8", "uint8"):
+            raise NotSimulated(f"EXP:{T[ins[0]]['type']}")
+    elif kind == "HARD_SWISH":
+        x, o = T[ins[0]], T[outs[0]]
+        si, _ = one_scale(x, kind)
+        so, _ = one_scale(o, kind)
+        if x["type"] not in ("int8", "uint8") or o["type"] != x["type"]:
+            raise NotSimulated(f"HARD_SWISH:{x['type']}")
+
+        def down(m32):
+            return 32767 if m32 >= 2147483647 - 32768 else (m32 + 32768) >> 16
+
+        hires = f32(f32(1.0 / 128.0) * si)
+        om, oe = quantize_multiplier(np.float64(f32(hires / so)))
+        rm, re_ = quantize_multiplier(np.float64(f32(hires / f32(3.0 / 32768.0))))
+        if oe > 0:
+            raise NotSimulated("HARD_SWISH:output_multiplier_exponent")          # the reference kernel rejects it
+        g = [[down(om), oe, down(rm), re_]]
     elif kind == "SOFTMAX":
         x, o = T[ins[0]], T[outs[0]]
         si, _ = one_scale(x, kind)
